@@ -250,6 +250,11 @@ def work(item):
                         if all(v != b for a, b in sv)]
             except Exception:
                 more = []
+            # ... and the inputs on which this module's validate() raised something unexpected during that search
+            try:
+                more += [t for (en_, site_), (t, kw_) in sorted(e2.crash_log.get(name, {}).items()) if not kw_ and isinstance(t, str)]
+            except Exception:
+                pass
             for x in more:
                 try:
                     q = enc(x)
